@@ -74,6 +74,7 @@ type harness struct {
 	timeout        bool
 	drift          int
 	closed         bool
+	gateOnly       map[string]bool // in auto mode: operations that are gated nevertheless ("interrupt at phase X" scenarios)
 	broken         map[string]bool // "sessions" / "archives": the directory has been moved away and replaced by a file
 	fwd            bool            // a forwarding session (fwd.go): records are prefixed with "F"
 	fmgr           *forwarding.Manager
@@ -169,7 +170,7 @@ func (h *harness) enter(side, op string, gated bool, extra map[string]any) *toke
 	}
 	h.emitLocked(rec)
 	t := &token{side: side, op: op, n: n, release: make(chan string, 1), returned: make(chan struct{})}
-	if !gated || (h.auto && !waitsForWorld(side, op)) {
+	if !gated || (h.auto && !waitsForWorld(side, op) && !h.gateOnly[op]) {
 		t.release <- "ok"
 		return t
 	}
@@ -1205,6 +1206,32 @@ func runCase(cs map[string]any, dir string, w io.Writer) {
 		case "auto":
 			on, _ := s["on"].(bool)
 			h.setAuto(on)
+		case "gateonly":
+			// from now on, although everything else passes, these operations wait for the script
+			g := map[string]bool{}
+			if ops, ok := s["ops"].([]any); ok {
+				for _, o := range ops {
+					if name, ok := o.(string); ok {
+						g[name] = true
+					}
+				}
+			}
+			h.mu.Lock()
+			h.gateOnly = g
+			h.mu.Unlock()
+			if len(g) == 0 {
+				h.setAuto(true) // releases whatever is still pending
+			}
+		case "waitpending":
+			// the loop is inside that operation (a gate, not a sleep)
+			if !h.waitPending(s.str("side"), s.str("op"), 5*time.Second) {
+				h.mu.Lock()
+				h.drift++
+				h.mu.Unlock()
+			}
+		case "interrupt":
+			// a label for the trace: the next command lands while the loop stands at this phase
+			h.emit(map[string]any{"ev": "Interrupt", "phase": s.str("phase"), "kind": s.str("kind")})
 		case "sleep":
 			time.Sleep(time.Duration(s.num("ms")) * time.Millisecond)
 		case "tick":
